@@ -83,6 +83,16 @@ theorem root_entry_is_never_empty (fs : Fs) (c : Cfg) (gi : Ignore) (src tb : RP
   repeat' split
   all_goals simp
 
+/-- … and the operation emitted for the root itself is the same with and without patterns -/
+theorem root_first_operation_ignores_patterns (fs : Fs) (c : Cfg) (ps : List Pattern) (src tb : RPath)
+    (fuel : Nat) (anc : List (List Name)) :
+    (walkEntry fs c (some ps) src tb (fuel + 1) [] anc).head? =
+      (walkEntry fs c none src tb (fuel + 1) [] anc).head? := by
+  simp only [walkEntry, List.length_nil, gt_iff_lt, Nat.lt_irrefl, decide_false, Bool.false_and,
+    Bool.false_eq_true, if_false]
+  repeat' split
+  all_goals simp
+
 /-- the original formulation (a corollary: its hypothesis is never satisfied) -/
 theorem root_is_never_filtered (fs : Fs) (c : Cfg) (ps : List Pattern) (src tb : RPath) (fuel : Nat) (anc : List (List Name)) :
     walkEntry fs c (some ps) src tb (fuel + 1) [] anc = [] →
